@@ -61,7 +61,7 @@ ENGINE = {}
 TECHNIQUE = {}
 LEVEL_TEXT = {}
 LEVEL_NOTE = {}
-HOOK_COMMITS = ["340a6bf"]  # /repo: cfg(kani) wrappers for is_backface, depth_sort, round_up_to_half (+ check-cfg lint entry)
+HOOK_COMMITS = ["340a6bf", "f7e7843"]  # /repo: cfg(kani) wrappers for is_backface, depth_sort, round_up_to_half (+ check-cfg lint entry); BezierSpline::verif_approximate_to_depth
 EXTRA_ENGINES = []
 DEFAULT_NOTE = ("Trusted: Kani's MIR->goto translation, CBMC's bit-precise integer and IEEE-754 float encoding, CaDiCaL; "
                 "harness oracles and stated input domains (evidence/<id>.json lists every harness with its domain, assumptions and what lies outside the bound). "
@@ -214,7 +214,7 @@ OUTSIDE[P] = ["perspective (w != 1) through tri_fill: tolerance proof over free 
 LEVEL_TEXT[P] = ("Bounded model checking: the per-fragment perspective division is decided bit-for-bit on arbitrary scanlines for scalar, vector, tuple and colour attributes; "
                  "interpolation through tri_fill is decided exactly on the lattice for every affine attribute plane with small integer coefficients.")
 for k in (8, 19):
-    H(P, "c05", f"c05_fragments_long_k{k}", ("bare",), f"Scanline<f32>, 20 fragments: arbitrary attribute start/step, reciprocal depths z0*(k+1), z0 in {{1/2,1,2,4}}; attribute checked at fragment {k}", f"every fragment at start+k*step with depth z0*(k+1) exactly; fragment {k}: var * own z == stepped value (rel 1e-5): perspective-correct in the middle of a long span, not only at span ends", unwind=23, est=300, cap=1500)
+    H(P, "c05", f"c05_fragments_long_k{k}", ("bare",), f"Scanline<f32>, 20 fragments: arbitrary attribute start/step, reciprocal depths z0*(k+1), z0 in {{1/2,1,2,4}}; attribute checked at fragment {k}", f"every fragment at start+k*step with depth z0*(k+1) exactly; fragment {k}: var * own z == stepped value (rel 1e-5): perspective-correct in the middle of a long span, not only at span ends", unwind=23, est=600, cap=1800, tiers=(("quick", "thorough") if k == 8 else ("thorough",)))
 H(P, "c05", "c05_fragments_f32", ("bare",), "Scanline<f32>, two fragments: arbitrary start position, attribute start/step; reciprocal depths 2^k and 2^(k+1)", "fragment k at start+k*step; var == stepped value / own z exactly", unwind=6, est=120)
 H(P, "c05", "c05_fragments_compound", ("bare",), "Scanline<(f32,Vec3)>, <Vec2>, <Color3f>, <()>: n<=2, finite floats", "every component divided by the fragment's own z; () passes through", unwind=4, est=1200, cap=2700, tiers=("thorough",))
 H(P, "c05", "c05_fragments_color", ("bare",), "Scanline<Color3f>, two fragments, arbitrary finite channels and steps, reciprocal depths 2^k", "every colour channel divided by the fragment's own z (exactly)", unwind=4, est=120)
@@ -338,6 +338,8 @@ for n in (2, 4):
 for n in (1, 2, 3, 4):
     H(P, "c17", f"c17_joins_n{n}", ("bare",), f"{n}-segment spline, integer control points in [-4,4], t = k/{n}", "eval(k/n) == control point 3k (1e-3); eval(0), eval(1) are the end points", unwind=16, est=120, cap=900)
 H(P, "c17", "c17_approximate_trees", ("bare",), "approximate() on the curve x = 3t^2 with a halt predicate that is arbitrary above depth D and true at depth D: every subdivision tree of depth <= 2 (depth 3 exhausts memory)", "terminates; first == p0, last == p_end exactly; points 3a^2 at strictly increasing dyadic a; every gap an aligned power of two (a node of the bisection tree)", unwind=12, est=120, cap=900)
+H(P, "c17", "c17_approximate_depth_bound", ("bare",), "the subdivision behind approximate() with the explicit depth budget B = 2 on the curve x = 3t^2, halting criterion answering arbitrarily (every tree the criterion could ask for, including 'never satisfied')", "stops at depth B on every path (left and right turns alike): vertices on the grid k/2^B, gaps aligned powers of two; never-satisfied criterion => the full grid of 2^B + 1 vertices", unwind=12, est=200, cap=900,
+  assumes=["reached through the cfg(kani) hook BezierSpline::verif_approximate_to_depth (do_approx with the budget as a parameter; approximate() itself passes 10 + log2(len))"])
 H(P, "c17", "c17_new_rejects_bad_length", ("bare",), "every length <= 12 that is not 3n+1 (n>=1)", "BezierSpline::new panics", kind="should_panic", unwind=16, est=30)
 H(P, "c17", "c17_smoothstep", ("bare",), "every float t; lattice k/16", "clamps outside [0,1]; fixed point 1/2; == 3t^2-2t^3 exactly on the lattice; in [0,1]", est=30)
 
